@@ -13,6 +13,7 @@ import (
 	"context"
 	"encoding/json"
 	"fmt"
+	"net"
 	"net/http"
 	"net/http/httptest"
 	"net/netip"
@@ -328,6 +329,28 @@ func vfNewC05Env() (e *vfC05Env, err error) {
 		return nil, err
 	}
 	storage = e.w.storage
+	// HTTPS answers carry many address hints, so that response filtering takes
+	// its per-hint path (nested lookups under the server lock) while admin
+	// operations queue for the write lock
+	e.w.ups.answer = func(req *dns.Msg) (resp *dns.Msg) {
+		if req.Question[0].Qtype != dns.TypeHTTPS {
+			return nil
+		}
+		resp = (&dns.Msg{}).SetReply(req)
+		h := &dns.HTTPS{SVCB: dns.SVCB{
+			Hdr:      dns.RR_Header{Name: req.Question[0].Name, Rrtype: dns.TypeHTTPS, Class: dns.ClassINET, Ttl: vfFixtureTTL},
+			Priority: 1, Target: ".",
+		}}
+		v4, v6 := &dns.SVCBIPv4Hint{}, &dns.SVCBIPv6Hint{}
+		for i := 0; i < 12; i++ {
+			v4.Hint = append(v4.Hint, net.IPv4(198, 51, 100, byte(10+i)).To4())
+			v6.Hint = append(v6.Hint, net.ParseIP(fmt.Sprintf("2001:db8:f1::%x", 10+i)))
+		}
+		h.Value = []dns.SVCBKeyValue{&dns.SVCBAlpn{Alpn: []string{"h2"}}, v4, v6}
+		resp.Answer = []dns.RR{h}
+
+		return resp
+	}
 	e.w.flt.Start()
 	if err = e.w.qlog.Start(context.Background()); err != nil {
 		return nil, err
@@ -368,6 +391,7 @@ type vfC05Result struct {
 	queries  int64
 	adminOK  int64
 	overlap  map[string]int
+	stalled  bool
 }
 
 func (r *vfC05Result) fail(format string, args ...any) {
@@ -494,7 +518,7 @@ func (e *vfC05Env) runAdmin(op vfC05Op, res *vfC05Result, mutating bool) {
 
 // vfC05Watchdog is the bound after which a program that has not finished counts
 // as a stall (a program normally takes tens of milliseconds).
-const vfC05Watchdog = 90 * time.Second
+const vfC05Watchdog = 45 * time.Second
 
 // execute runs the program's goroutines concurrently and returns what failed.
 func (e *vfC05Env) execute(p *vfC05Program) (res *vfC05Result) {
@@ -555,6 +579,7 @@ func (e *vfC05Env) execute(p *vfC05Program) (res *vfC05Result) {
 		buf := make([]byte, 1<<20)
 		n := runtime.Stack(buf, true)
 		res.fail("stall: the program did not finish within %s (deadlock?)\n%s", vfC05Watchdog, buf[:n])
+		res.stalled = true
 	}
 
 	return res
@@ -575,6 +600,10 @@ func vfC05RunProgram(t interface{ Fatalf(string, ...any) }, p *vfC05Program, tim
 			}
 		}
 		res := e.execute(p)
+		if res.stalled {
+			// closing a stalled server may block for ever; leak it
+			t.Fatalf("%s", strings.Join(res.failures, "\n"))
+		}
 		e.close()
 
 		vfC05.Eval()
